@@ -2,6 +2,8 @@
    Script (one command per line, blank separated words; names, strings and data are hex):
      open w <file>                                   a new session (root0)
      call <fn> <path|-> <name hex|-> <ints csv|-> <strs hex;hex|-> [<dt>:<dims csv>:<data hex>]...
+     callp <slab spec> <fn> ...                      the same call: the implementation writes the array in slabs, the
+                                                     entity (and so the model's effect) is the same
                                                      -> "i <index>" | "i -" (the function returns no index) | "i fail"
      dump                                            -> the node tree the calls produce ([enc]): one "N" line per node,
                                                         depth first, children in creation order, then "E dump ok"
@@ -70,7 +72,8 @@ let words l = Stdlib.List.filter (fun w -> w <> "") (Stdlib.String.split_on_char
 let run () =
   (try while true do
     let line = input_line stdin in
-    (match words line with
+    let ws = (match words line with "callp" :: _ :: rest -> "call" :: rest | l -> l) in     (* the same entity, written in slabs *)
+    (match ws with
     | "open" :: "w" :: _ -> root := root0
     | "call" :: fn :: path :: name :: ints :: strs :: arrs ->
         let f = try Stdlib.List.assoc fn fns with Not_found -> failwith ("unknown fn " ^ fn) in
